@@ -19,7 +19,9 @@ ROOT = os.path.dirname(os.path.dirname(os.path.abspath(__file__)))
 def main():
     prop, var = sys.argv[1], sys.argv[2]
     checks = sys.argv[3:]
-    src = '/tmp/seed_out/%s/%s' % (prop, var)
+    base = os.environ.get('SEED_SRC', '/tmp/seed_out')
+    suffix = os.environ.get('SEED_SUFFIX', '')
+    src = '%s/%s/%s' % (base, prop, var)
     demo = os.path.join(src, 'demo.sh')
     cmd = [sys.executable, os.path.join(ROOT, 'selftest', 'mutant.py'), '--tests']
     if os.path.exists(demo):
@@ -35,12 +37,12 @@ def main():
         m = re.search(r'^\S+ %s (DETECTED|silent|inconclusive|exit \d+) \((\d+)s\)(.*)$' % c, out, re.M)
         if m:
             results[c] = {'verdict': m.group(1), 'seconds': int(m.group(2)), 'first_violation': m.group(3).strip()[:300]}
-    print('%s-%s tests_ok=%s demo_ok=%s %s' % (prop, var, tests_ok, demo_ok, {c: r['verdict'] for c, r in results.items()}))
+    print('%s-%s%s tests_ok=%s demo_ok=%s %s' % (prop, var, suffix, tests_ok, demo_ok, {c: r['verdict'] for c, r in results.items()}))
     if 'PATCH-FAILED' in out:
         print('  patch does not apply')
         return 1
     if tests_ok and demo_ok:
-        dst = os.path.join(ROOT, 'seeded', '%s-%s' % (prop, var))
+        dst = os.path.join(ROOT, 'seeded', '%s-%s%s' % (prop, var, suffix))
         os.makedirs(dst, exist_ok=True)
         for f in ('patch.diff', 'demo.sh', 'notes.md'):
             if os.path.exists(os.path.join(src, f)):
